@@ -1,0 +1,115 @@
+//go:build verif
+
+// Contracts for package jrpc2, read by the gvc verifier in /verif (build tag
+// "verif"). This file contains no code: only the package clause and //@ lines.
+// Clauses are keyed by function, loop ordinal and call ordinal, never by line.
+
+package jrpc2
+
+// ---------------------------------------------------------------------------
+// Error codes (C14)
+// ---------------------------------------------------------------------------
+
+// codeOf(e): what e's ErrCode method reports, for an e that implements ErrCoder.
+//@ pure codeOf(e Iface) Int = typeis(e, "*jrpc2.Error") ? unboxas(e, "*jrpc2.Error").Code : (typeis(e, "jrpc2.Error") ? unboxas(e, "jrpc2.Error").Code : (typeis(e, "jrpc2.codeError") ? unboxas(e, "jrpc2.codeError") : userCode(e)))
+
+// errorCodeSpec: the classification documented on ErrorCode, in its stated
+// precedence: nil, then the first ErrCoder in the chain, then context.Canceled,
+// then context.DeadlineExceeded, then SystemError.
+//@ pure errorCodeSpec(e Iface) Int = e == nil ? NoError : (hasCoder(e) ? codeOf(firstCoder(e)) : (chainHas(e, context.Canceled) ? Cancelled : (chainHas(e, context.DeadlineExceeded) ? DeadlineExceeded : SystemError)))
+
+//@ iface ErrCoder.ErrCode
+//@   ensures result == codeOf(self)
+
+//@ func ErrorCode
+//@   ensures[C14:spec] result == errorCodeSpec(err)
+
+//@ func (Code).Err
+//@   ensures[C14:nil] c == NoError ==> result == nil
+//@   ensures[C14:coder] c != NoError ==> result == boxof(c, "jrpc2.codeError")
+
+//@ lemma[C14] codeErrRoundTrip(c Int)
+//@   requires c != NoError
+//@   ensures errorCodeSpec(boxof(c, "jrpc2.codeError")) == c
+
+// A context sentinel, bare or wrapped (chainHas), classifies as its own code
+// provided nothing in the chain is an ErrCoder.
+//@ lemma[C14] contextErrorsClassify(e Iface)
+//@   requires e != nil && !hasCoder(e)
+//@   ensures chainHas(e, context.Canceled) ==> errorCodeSpec(e) == Cancelled
+//@   ensures !chainHas(e, context.Canceled) && chainHas(e, context.DeadlineExceeded) ==> errorCodeSpec(e) == DeadlineExceeded
+//@   ensures errorCodeSpec(context.Canceled) == Cancelled && errorCodeSpec(context.DeadlineExceeded) == DeadlineExceeded
+
+//@ func (codeError).ErrCode
+//@   ensures result == c
+
+//@ func (Error).ErrCode
+//@   ensures result == e.Code
+
+// WithData never modifies its receiver (no modifies clause: the frame
+// obligations prove that no pre-existing object changes), returns the receiver
+// itself when there is nothing to attach, and otherwise a fresh copy.
+//@ func (*Error).WithData
+//@   ensures[C14:receiver] e.Code == old(e.Code) && e.Message == old(e.Message) && e.Data == old(e.Data)
+//@   ensures[C14:noop] (v == nil || !marshalable(v)) ==> result == e
+//@   ensures[C14:copy] (v != nil && marshalable(v)) ==> result != e && result != nil && result.Code == e.Code && result.Message == e.Message && len(result.Data) > 0 && compactJSON(str(result.Data))
+
+//@ func Errorf
+//@   fresh result
+//@   ensures result != nil && result.Code == code
+
+// filterError maps the two context codes back to the context sentinels and is
+// the identity otherwise.
+//@ func filterError
+//@   requires e != nil
+//@   ensures[C14:canceled] e.Code == Cancelled ==> result == context.Canceled
+//@   ensures[C14:deadline] e.Code == DeadlineExceeded ==> result == context.DeadlineExceeded
+//@   ensures[C14:identity] e.Code != Cancelled && e.Code != DeadlineExceeded ==> result == boxof(e, "*jrpc2.Error")
+
+// ---------------------------------------------------------------------------
+// Roles of user-supplied code (DESIGN 6.3)
+// ---------------------------------------------------------------------------
+
+// handlerRuns counts, per thread, the invocations of Handler-role values.
+//@ tlghost handlerRuns Int
+
+// Logging has no effect on modelled state.
+//@ role field Server.log
+//@ role field Client.log
+//@ iface RPCLogger.LogRequest
+//@ iface RPCLogger.LogResponse
+
+// The method handler: arbitrary result and error; counted.
+//@ role param (*Server).invoke.h
+//@   modifies handlerRuns
+//@   ensures handlerRuns == old(handlerRuns) + 1
+
+// ---------------------------------------------------------------------------
+// Concurrency limit (C06), context population (C17)
+// ---------------------------------------------------------------------------
+
+//@ func (*ServerOptions).concurrency
+//@   nilrecv
+//@   ensures[C06:floor] result >= 1
+//@   ensures[C06:option] s != nil && s.Concurrency >= 1 ==> result == s.Concurrency
+
+// invoke brackets the one handler call between a successful Acquire(ctx, 1)
+// and the matching Release(1); a waiter whose Acquire fails is answered with
+// that error and its handler never runs.
+//@ func (*Server).invoke
+//@   requires s.sem != nil && s.rpcLog != nil && h != nil && req != nil && base != nil
+//@   modifies handlerRuns
+//@   at call.h#1 assert[C06:holds-slot] semHeld(s.sem) == old(semHeld(s.sem)) + 1
+//@   at call.h#1 assert[C17:server-in-ctx] ctxValue(arg0, boxof(0, "jrpc2.serverKey")) == boxof(s, "*jrpc2.Server")
+//@   at call.h#1 assert[C17:inbound-kept] forall(k Iface, k != boxof(0, "jrpc2.serverKey") ==> ctxValue(arg0, k) == ctxValue(base, k))
+//@   at call.h#1 assert[C17:request] arg1 == req
+//@   ensures[C06:released] semHeld(s.sem) == old(semHeld(s.sem))
+//@   ensures[C06:at-most-once] handlerRuns == old(handlerRuns) || handlerRuns == old(handlerRuns) + 1
+//@   ensures[C06:cancelled-waiter] handlerRuns == old(handlerRuns) ==> result0 == nil && result1 != nil
+
+// Handler values are invoked only by Server.invoke (and, on the client side,
+// by the OnCallback adapter), so the semaphore bracket covers every handler
+// run, built-in methods included.
+//@ census[C06] handler-called-only-in-invoke: calls-of-sig Handler only-in (*Server).invoke (*ClientOptions).handleCallback$1$1
+//@ census[C06] release-is-deferred: deferred (*golang.org/x/sync/semaphore.Weighted).Release in (*Server).invoke
+//@ census[C06] globals-immutable: no-global-stores
